@@ -293,7 +293,10 @@ class Module(object):
                 out = []
                 k = 0
                 while k < len(s):
-                    if s[k] == '\\':
+                    if s[k] == '\\' and s[k + 1] == '\\':
+                        out.append(0x5c)
+                        k += 2
+                    elif s[k] == '\\':
                         out.append(int(s[k + 1:k + 3], 16))
                         k += 3
                     else:
@@ -410,6 +413,7 @@ class Interp(object):
         self.events = []         # ('stdout', fn) / ('stderr', fn)
         self.ub = []             # names of UB obligations already emitted on this path
         self.called = set()
+        self.on_stdout = None     # callback(fname): the code writes to stdout on this path
 
     # ---- undefined behaviour -------------------------------------------------------------------
     def require(self, cond, what):
@@ -631,6 +635,22 @@ class Interp(object):
         self.called.add(fname)
         env = {}
         for (ty, pname, marks), a in zip(f.params, args):
+            bv_ = [mk for mk in marks if mk.startswith('@@byval(')]
+            if bv_ and isinstance(a, Ptr):
+                # struct passed by value: the callee works on its own copy
+                sty = parse_type(bv_[0][len('@@byval('):-1])[0]
+                n = self.m.sizeof(sty)
+                off = self.concrete_off(a, n, 'byval copy')
+                if off is None:
+                    raise Unsupported("byval argument at a symbolic address")
+                src = self.region_bytes(a.region)
+                if off < 0 or off + n > len(src):
+                    self.require(z3.BoolVal(False), "byval copy out of bounds")
+                    raise Abort("out of bounds")
+                self.nalloca += 1
+                name = '%%byval%d' % self.nalloca
+                self.mem[name] = list(src[off:off + n])
+                a = Ptr(name, 0)
             env[pname] = a
         label = f.order[0]
         prev = None
@@ -674,15 +694,61 @@ class Interp(object):
             return self.intrinsic(fname, args)
         if fname in ('exit', 'abort', '_exit', '__assert_fail'):
             raise Abort(fname)
+        if fname in ('sscanf', '__isoc99_sscanf'):
+            return self.sscanf(args)
         if fname in STDOUT_WRITERS:
             self.events.append(('stdout', fname))
+            if self.on_stdout is not None:
+                self.on_stdout(fname)
             return Val(z3.BitVecVal(0, 32))
         if fname in STREAM_WRITERS:
             stream = args[STREAM_WRITERS[fname]]
             which = getattr(stream, 'region', None)
             self.events.append(('stdout' if which == 'FILE:stdout' else 'stderr' if which == 'FILE:stderr' else 'stream?', fname))
+            if which != 'FILE:stderr' and self.on_stdout is not None:
+                self.on_stdout("%s(%s)" % (fname, which))
             return Val(z3.BitVecVal(0, 64 if fname == 'fwrite' else 32))
         raise Unsupported("call to external function %s" % fname)
+
+    def sscanf(self, args):
+        """sscanf(str, "%8x" | "%4hx" | "%2hhx", &out) on a constant string at a concrete offset (bignum_from_string)"""
+        sp, fp, outp = args[0], args[1], args[2]
+        fmt = self.c_string(fp)
+        m = re.match(r'%(\d+)(hh|h|)x$', fmt)
+        if not m:
+            raise Unsupported("sscanf format %r" % fmt)
+        width = int(m.group(1))
+        nbytes = {'hh': 1, 'h': 2, '': 4}[m.group(2)]
+        txt = self.c_string(sp)
+        k = 0
+        while k < len(txt) and txt[k] in ' \t\n':
+            k += 1
+        digits = ''
+        while k < len(txt) and len(digits) < width and txt[k] in '0123456789abcdefABCDEF':
+            digits += txt[k]
+            k += 1
+        if not digits:
+            return Val(z3.BitVecVal(0, 32))
+        self.store(('i', 8 * nbytes), Val(z3.BitVecVal(int(digits, 16), 8 * nbytes)), outp)
+        return Val(z3.BitVecVal(1, 32))
+
+    def c_string(self, ptr):
+        data = self.region_bytes(ptr.region)
+        off = self.concrete_off(ptr, 1, 'string read')
+        if off is None:
+            raise Unsupported("string at a symbolic address")
+        out = ''
+        while True:
+            if off >= len(data):
+                self.require(z3.BoolVal(False), "string read past the end of %s" % ptr.region)
+                raise Abort("out of bounds")
+            b = z3.simplify(data[off])
+            if not z3.is_bv_value(b):
+                raise Unsupported("symbolic string contents")
+            if b.as_long() == 0:
+                return out
+            out += chr(b.as_long())
+            off += 1
 
     def intrinsic(self, fname, args):
         base = fname.split('.')[1]
